@@ -32,7 +32,9 @@ RULE = ("histories: lattice family (11 kinds, optionally rotated in space) + 0-3
         "changing between steps), use_symmetry}; tetra: default 5-tetra cell / trigonal wedge / subsets of the Kuhn and "
         "5-tetra tilings with permuted vertices and optional weights, split thresholds from a target count, 0-6 divides "
         "with ndiv 2..4; non-trivial(grid) = (group order>1 and >=1 merge happened) or >=2 refinement steps; "
-        "non-trivial(tetra) = >=1 split at construction or >=1 divide; distinct = distinct generated case")
+        "non-trivial(tetra) = >=1 split at construction or >=1 divide; run: real run() with 1-3 refinements, then a restart from the "
+        "last or an earlier iteration (1-2 more refinements) and optionally a second restart, both storage modes, with/without "
+        "symmetry - non-trivial = restart from an earlier iteration after >=1 point was refined; distinct = distinct generated case")
 ASSUMPTIONS = [
     "grids are generated compatible with the group (my own integer test: M_ab*N_b divisible by N_a for all operations)",
     "refinement depth is capped so that cells stay larger than 1.5e-5 >> SYMMETRY_PRECISION=1e-6 (no equivalence ties)",
